@@ -115,7 +115,7 @@ func c16Render(e *twig.Engine, name string, ctxJSON []byte) (o c16Out, pan inter
 	return
 }
 
-// C16: compiled templates. Three streams:
+// C16: compiled templates. Four streams:
 //
 //	record    - fields + the model's exact serialisation: SerializeCompiledTemplate must produce those bytes
 //	            (correspondence) and DeserializeCompiledTemplate must give the fields back (the property's own
@@ -123,6 +123,8 @@ func c16Render(e *twig.Engine, name string, ctxJSON []byte) (o c16Out, pan inter
 //	malformed - arbitrary bytes with the model's verdict; a panic or a hang is an oracle failure
 //	render    - a source and a context: render from source vs compile -> serialise -> deserialise -> register
 //	            on a fresh engine (three routes incl. files) must print the same bytes, on five engine configurations
+//	revisions - one name, several sources of equal length and equal timestamps, compiled and loaded one after
+//	            the other in this process: each must render like its own source
 func runC16(cases string, res *Result) {
 	twig.SetDebugWriter(io.Discard) // SetDebug(true) on one engine switches the package-wide logger on
 	dir := filepath.Join(filepath.Dir(cases), "files")
@@ -194,11 +196,24 @@ func runC16(cases string, res *Result) {
 		ctpl := &twig.CompiledTemplate{Name: want.name, Source: want.src, LastModified: want.lm, CompileTime: want.ct, AST: []byte(want.ast)}
 		var ser []byte
 		var err error
-		pan, hung := c16Guard(30*time.Second, func() { ser, err = twig.SerializeCompiledTemplate(ctpl) })
+		snapshot := ""
+		pan, hung := c16Guard(30*time.Second, func() {
+			ser, err = twig.SerializeCompiledTemplate(ctpl)
+			if err == nil {
+				// serialise something else right away: the bytes already handed out must stay what they were
+				snapshot = string(ser)
+				probe := &twig.CompiledTemplate{Name: "\xa5probe", Source: strings.Repeat("\x5a", 64), LastModified: -1, CompileTime: -1, AST: []byte{0xa5}}
+				_, _ = twig.SerializeCompiledTemplate(probe)
+			}
+		})
 		res.Evaluations++
 		if hung || pan != nil || err != nil {
 			oracle("serialize", c, "bytes", fmt.Sprintf("hung=%v panic=%v err=%v", hung, pan, err), "SerializeCompiledTemplate fails on a representable record")
 			return
+		}
+		if string(ser) != snapshot {
+			oracle("serialize-aliasing", c, c16Clip(snapshot), c16Clip(string(ser)), "the bytes returned by SerializeCompiledTemplate changed when another template was serialised afterwards")
+			ser = []byte(snapshot)
 		}
 		// the buffer handed out for the previous record must not be rewritten by this call
 		if prevSer != nil && string(prevSer) != prevCopy {
@@ -446,6 +461,87 @@ func runC16(cases string, res *Result) {
 		}
 	}
 
+	// revisions: one name compiled again and again with content of the same length and the same timestamps,
+	// loaded within this process into one shared engine and into fresh engines; whatever was loaded before,
+	// each revision must render like its own source on a fresh engine
+	revisions := func(c Case) {
+		name := c.str("name")
+		lm, _ := strconv.ParseInt(c.str("lm"), 10, 64)
+		ct, _ := strconv.ParseInt(c.str("ct"), 10, 64)
+		ctxJSON, _ := json.Marshal(c["ctx"])
+		revs := c.list("revs")
+		sharedPlan := c.list("shared")
+		res.Hist["revisions"]++
+		key := "revisions:" + name
+		for _, r := range revs {
+			key += "|" + r.(string)
+		}
+		res.count(key, len(revs) >= 2)
+		res.sample(map[string]interface{}{"revisions_of": name, "sources": revs}, 28)
+		shared := c16Engine(0)
+		for i, rv := range revs {
+			src := unhex(rv.(string))
+			a := c16Engine(0)
+			var rerr error
+			if pan, hung := c16Guard(20*time.Second, func() { rerr = a.RegisterString(name, src) }); pan != nil || hung {
+				res.Hist["revisions:register-panic-or-hang"]++
+				continue
+			}
+			if rerr != nil {
+				res.Hist["revisions:source-does-not-parse"]++
+				continue
+			}
+			ref, pan, hung := c16Render(a, name, ctxJSON)
+			if pan != nil || hung {
+				res.Hist["revisions:source-render-panic-or-hang"]++
+				continue
+			}
+			compiled, cerr := a.CompileTemplate(name)
+			if cerr != nil || compiled == nil {
+				oracle("revisions/compile", c, "a compiled template", fmt.Sprint("error: ", cerr), "CompileTemplate fails on a registered template")
+				continue
+			}
+			compiled.LastModified, compiled.CompileTime = lm, ct
+			ser, serr := twig.SerializeCompiledTemplate(compiled)
+			if serr != nil {
+				oracle("revisions/serialize", c, "bytes", "error: "+serr.Error(), "")
+				continue
+			}
+			back, derr, ok := deser("revisions/roundtrip", c, ser)
+			if !ok {
+				continue
+			}
+			if derr != nil || c16Of(back) != c16Of(compiled) {
+				oracle("revisions/roundtrip", c, c16Of(compiled).String(), fmt.Sprint(derr), "revision "+strconv.Itoa(i)+" does not survive serialise / deserialise")
+				continue
+			}
+			cmp := func(route string, e *twig.Engine, lerr error) {
+				res.Evaluations++
+				where := "revisions/" + route
+				detail := fmt.Sprintf("revision %d of %s (source %s), loaded after %d earlier revision(s) of the same name, length and timestamps, does not render like its own source", i, name, hx(src), i)
+				if lerr != nil {
+					oracle(where, c, ref.String(), "load error: "+lerr.Error(), detail)
+					return
+				}
+				got, pan, hung := c16Render(e, name, ctxJSON)
+				if pan != nil || hung {
+					oracle(where, c, ref.String(), fmt.Sprintf("panic=%v hung=%v", pan, hung), detail)
+					return
+				}
+				if got != ref {
+					oracle(where, c, ref.String(), got.String(), detail)
+				}
+			}
+			f1 := c16Engine(0)
+			cmp("fresh-engine/RegisterCompiledTemplate", f1, f1.RegisterCompiledTemplate(back))
+			f2 := c16Engine(0)
+			cmp("fresh-engine/LoadFromCompiledData", f2, f2.LoadFromCompiledData(ser))
+			if b, _ := sharedPlan[i].(bool); b || i == len(revs)-1 {
+				cmp("shared-engine/LoadFromCompiledData", shared, shared.LoadFromCompiledData(ser))
+			}
+		}
+	}
+
 	readCases(cases, func(c Case) {
 		switch c.str("stream") {
 		case "record":
@@ -454,6 +550,8 @@ func runC16(cases string, res *Result) {
 			malformed(c)
 		case "render":
 			render(c)
+		case "revisions":
+			revisions(c)
 		}
 	})
 	res.Exhaustive = []string{"malformed:exhaustive1", "malformed:exhaustive-01xy"}
